@@ -3,7 +3,6 @@ package main
 import (
 	"bytes"
 	"fmt"
-	"io"
 	"strings"
 
 	"github.com/ulikunitz/xz/lzma"
@@ -124,7 +123,7 @@ func readLZMA2(stream []byte, dict int) (out []byte, err error, pn *mon.Panic) {
 			err = fmt.Errorf("open: %w", err)
 			return
 		}
-		out, err = io.ReadAll(r)
+		out, err = readVaried(r, stream, uint64(dict))
 	})
 	return
 }
